@@ -420,7 +420,11 @@ class Check(CheckBase):
                 snap_mut = [e['call'] for e in ref_store.log if e['op'] in membackend.MUTATING_OPS and str(e['name']).startswith('snapshots/')]
                 other_mut = [c for c in mut if c not in snap_mut]
                 r.shuffle(other_mut)
-                pick = snap_mut + other_mut[: max(4, case['budget'] // 2)]
+                # ... and every read the command bases its decisions on: listings and downloads of snapshot objects (a failed
+                # read that is taken for 'nothing there' makes delete / clean remove what is still referenced)
+                snap_reads = [e['call'] for e in ref_store.log if e['op'] in ('download', 'download_stream', 'list_files')
+                              and str(e['name']).startswith('snapshots/')]
+                pick = snap_mut + snap_reads[:12] + other_mut[: max(4, case['budget'] // 2)]
                 rest = [k for k in ks if k not in pick]
                 pick += rest[:2] + rest[-2:] + r.sample(rest, max(0, min(len(rest), case['budget'] - len(pick) - 4)))
                 ks = sorted(set(pick))
